@@ -193,6 +193,7 @@ class Ctx:
         self.stats = Counter()
         self.violations = []      # dicts: {replay, found_input, what}
         self.known_lines = []     # KNOWN-FINDING lines printed
+        self._known_ids = set()
         self.corr_obligations = Counter()   # name -> number of cases checked
         self.corr_failed = Counter()
         self.assumptions = []
@@ -243,9 +244,12 @@ class Ctx:
         self.violations.append({"replay": path, "found_input": found_input, "what": what})
 
     def known(self, finding_id, what):
-        line = f"KNOWN-FINDING: property={self.prop} {finding_id} {what}"
-        if line not in self.known_lines:
-            self.known_lines.append(line)
+        """One KNOWN-FINDING line per listed finding (the first reproduction is quoted)."""
+        self.stats[f"known_{finding_id}_reproductions"] += 1
+        if finding_id in self._known_ids:
+            return
+        self._known_ids.add(finding_id)
+        self.known_lines.append(f"KNOWN-FINDING: property={self.prop} {finding_id} {what}")
 
 
 def load_known_findings(prop):
@@ -258,6 +262,18 @@ def load_known_findings(prop):
 
 def open_findings(prop):
     return {e["id"]: e for e in load_known_findings(prop) if e.get("status") == "open"}
+
+
+def load_corpus(prop):
+    """Minimised past disagreements and finding witnesses; always run first."""
+    d = os.path.join(ROOT, "harness", "corpus", prop)
+    res = []
+    if os.path.isdir(d):
+        for f in sorted(os.listdir(d)):
+            if f.endswith(".json"):
+                with open(os.path.join(d, f)) as fh:
+                    res.append(json.load(fh)["case"])
+    return res
 
 
 def quiet():
